@@ -529,7 +529,20 @@ func c09(c *Ctx) {
 		for _, fn := range fns {
 			for _, call := range Calls(fn) {
 				f := call.Common().StaticCallee()
-				if f == nil || PkgOf(f) != "net" || !(f.Name() == "Listen" || f.Name() == "ListenTCP" || f.Name() == "ListenUDP" || f.Name() == "ListenPacket" || f.Name() == "ListenUnix") {
+				helperDeadline := false
+				if !isNetListen(f) {
+					// a helper of the package that opens the listener and returns it: judged here, at its caller
+					if f == nil || !InRepo(f) || f.Blocks == nil || PkgOf(f) != PkgOf(fn) {
+						continue
+					}
+					lc := returnedListen(f)
+					if lc == nil {
+						continue
+					}
+					helperDeadline = listenSetsDeadline(f, lc)
+				} else if returnedListen(fn) == call && hasCallerIn(p, fn, fns) {
+					nl++
+					c.Ok("listener-closed", strings.Join(sv.Names, "/")+": "+FuncShort(f)+" in "+shortFn(fn), p.InstrPos(call), "the listener is returned to the caller and judged there")
 					continue
 				}
 				nl++
@@ -550,7 +563,7 @@ func c09(c *Ctx) {
 				}})
 				// a listener opened for one connection must not wait for its peer for ever: SetDeadline on it in the opening
 				// function, or every Accept on it selected against a timer/ctx (not the case anywhere today)
-				hasDeadline := false
+				hasDeadline := helperDeadline
 				for _, c2 := range Calls(fn) {
 					cc := c2.Common()
 					name := ""
@@ -673,6 +686,7 @@ func c09(c *Ctx) {
 	c09LibraryQueuesDrained(c, svcs, listed)
 	c09DatagramEndReported(c)
 	c09HelperWaitsOnExit(c)
+	c09ResultChannelNotAbandoned(c, "services")
 }
 
 // exitChannelsOf: channels whose closed/receive arm guards the return r (range over chan exhausted, v,ok := <-ch with !ok,
@@ -752,6 +766,75 @@ func rawListener(v ssa.Value, seeds []ssa.Value, d int) bool {
 			}
 		}
 		return len(x.Edges) > 0
+	case *ssa.UnOp:
+		// a load of the listener variable: what has been stored into it on the way here
+		a, ok := x.X.(*ssa.Alloc)
+		if !ok || x.Op != token.MUL || a.Referrers() == nil {
+			return false
+		}
+		some := false
+		for _, r := range *a.Referrers() {
+			st, ok := r.(*ssa.Store)
+			if !ok || st.Addr != ssa.Value(a) {
+				continue
+			}
+			if !InstrReachFrom(x.Parent(), st, nil, func(ssa.Instruction) bool { return false })(x) {
+				continue // stored only later (the TLS wrapper)
+			}
+			some = true
+			if !rawListener(st.Val, seeds, d+1) {
+				return false
+			}
+		}
+		return some
+	}
+	return false
+}
+
+func isNetListen(f *ssa.Function) bool {
+	return f != nil && PkgOf(f) == "net" && (f.Name() == "Listen" || f.Name() == "ListenTCP" || f.Name() == "ListenUDP" || f.Name() == "ListenPacket" || f.Name() == "ListenUnix")
+}
+
+// returnedListen: the net.Listen* call of h whose listener h returns as its first result (on some return).
+func returnedListen(h *ssa.Function) ssa.CallInstruction {
+	for _, r := range Returns(h) {
+		vals := RetVals(r)
+		if len(vals) == 0 {
+			continue
+		}
+		for _, lf := range leaves(vals[0]) {
+			if ex, ok := Unwrap(lf).(*ssa.Extract); ok && ex.Index == 0 {
+				if call, ok := ex.Tuple.(*ssa.Call); ok && isNetListen(call.Call.StaticCallee()) {
+					return call
+				}
+			}
+		}
+	}
+	return nil
+}
+
+// listenSetsDeadline: h calls SetDeadline on the very listener lc returned, unconditionally after the error test.
+func listenSetsDeadline(h *ssa.Function, lc ssa.CallInstruction) bool {
+	for _, c2 := range Calls(h) {
+		cc := c2.Common()
+		f2 := cc.StaticCallee()
+		if f2 == nil || f2.Name() != "SetDeadline" || len(cc.Args) == 0 {
+			continue
+		}
+		if ex, ok := Unwrap(cc.Args[0]).(*ssa.Extract); ok && ex.Index == 0 && ex.Tuple == lc.Value() {
+			return true
+		}
+	}
+	return false
+}
+
+func hasCallerIn(p *Program, f *ssa.Function, fns []*ssa.Function) bool {
+	for _, g := range fns {
+		for _, call := range Calls(g) {
+			if call.Common().StaticCallee() == f {
+				return true
+			}
+		}
 	}
 	return false
 }
